@@ -294,7 +294,6 @@ def unhooked_stress(run, secs):
             raise ToolError("unhooked stress harness does not build:\n" + p.stderr[-2000:])
     finally:
         lk.close()
-    hook_lint()
     p = cb.run([os.path.join(d, "target", "release", "stress"), "--secs", str(secs), "--readers", "3"], timeout=secs * 10 + 120)
     if p.returncode != 0 or not p.stdout.strip():
         run.rep.violation("unhooked-stress-crashed", f"free-running stress of the unhooked ShmWriter/ShmReader died (rc {p.returncode})", {"kind": "stress", "stderr": p.stderr[-1000:]})
@@ -306,6 +305,8 @@ def unhooked_stress(run, secs):
         prop = v.split()[0]
         if prop in PROPSETS[run.rep.pid]:
             run.rep.violation("unhooked-stress", f"free-running stress of the unhooked code: {v}", {"kind": "stress", "result": res})
+    if not run.rep.violations:
+        hook_lint()       # after the stress: a violation seen on the shipped statements is a verdict, a mere divergence is drift
 
 
 def hook_lint():
